@@ -53,6 +53,14 @@ RULE = ("documents derived from genuinely signed Responses (Response-signed, ass
         "IdP's, none} x whom the signed element names {unknown entity, entity without signing KeyDescriptor, no Issuer on the "
         "envelope, the genuine IdP} x level, genuine traffic with KeyInfo, under metadata with / without the keyless entity "
         "and with only_use_keys_in_metadata off (only on documents whose signed elements name an entity with metadata keys).  "
+        "Round 6: WHOSE NAME the envelope carries - in assertion-signed traffic the envelope's Issuer (what issuer() / "
+        "session_info() report) lies outside every signature: 45 spellings NEAR the signed assertion's Issuer (proper prefixes / "
+        "suffixes / inner fragments down to one character, superstrings, letter-case variants, white space around / inside / "
+        "only, URL-equivalent spellings, another member, unknown, empty) x where it stands (Issuer rewritten / second Issuer "
+        "child after / before) x message kind (plain, encrypted, KeyInfo, Advice, signed Issuer spelled with surrounding white "
+        "space, a GUEST IdP whose entityID nests the IdP's - both in the SP's metadata, policies '<P>g' - in both directions, "
+        "whole envelopes swapped) x policy, the same rewrites on the SIGNED side, and random slices / case flips / "
+        "insertions / deletions / paddings of the names at the envelope or any Issuer element (own PRNG stream).  "
         "The property checked on the observed output includes: ONE covered element accounts for the whole report.  "
         "non-trivial = distinct (family, policy, accepted, digested-element paths, per-variant outcomes)")
 TRUSTED = ["xmlsec1 stand-in (harness/standin/xmlsec1.py: xmlSecFindNode = first ds:Signature at/below --node-id, "
@@ -96,7 +104,9 @@ NSMAP = {
 }
 PFX = {v: k for k, v in NSMAP.items()}
 DS_SIG = "ds:Signature"
-KEYS = {"idp": 1, "idp2": 2, "idpenc": 3, "other": 4, "sp": 5, "attacker": 6}
+KEYS = {"idp": 1, "idp2": 2, "idpenc": 3, "other": 4, "sp": 5, "attacker": 6, "spenc2": 7}
+GUEST_KEY = "spenc2"                       # (round 6) fixture key pair used as the signing key of the guest IdP ("g" policies)
+GUEST_ID = world.IDP_ID + "/guest"         # (round 6) a federation member whose entityID NESTS the IdP's (IdP's = its leading part)
 MD = [(world.IDP_ID, [1, 2]), (world.OTHER_ID, [4])]
 MAIL = "urn:oid:0.9.2342.19200300.100.1.3"
 GIVEN = "urn:oid:2.5.4.42"
@@ -127,6 +137,11 @@ def _round5_policies():
         POLICIES[p + "n"] = dict(POLICIES[p], metadata_xml=md)
         POLICIES[p + "o"] = dict(POLICIES[p], only_use_keys_in_metadata=False)
         POLICIES[p + "m"] = dict(POLICIES[p], metadata_xml=[])          # an SP without any metadata: nobody has keys
+    # (round 6) "<P>g": the SP's metadata also knows the guest IdP, whose entityID is the IdP's + "/guest" (own signing key)
+    guest = world.idp_descriptor(GUEST_ID, [(GUEST_KEY, "signing")],
+                                 sso=[(world.BINDING_HTTP_REDIRECT, "https://idp.example.org/guest/sso/redirect")])
+    for p in ("R", "A", "B", "E"):
+        POLICIES[p + "g"] = dict(POLICIES[p], metadata_xml=[world.default_idp_md(), world.default_other_md(), guest])
 
 
 _round5_policies()
@@ -632,6 +647,20 @@ def base_round5(b):
     b["oR_noiss"] = build_message(1, "R", "other", r_issuer=None, keyinfo="other", **ev)
 
 
+# (round 6) WHOSE NAME the unsigned envelope carries: genuine messages of the guest IdP (entityID = the IdP's + "/guest",
+# in the metadata of the "g" policies; its subject "admin" is self-registered there), and a genuine message whose SIGNED
+# assertion spells its Issuer with surrounding white space (pretty-printed XML) under an exactly spelled envelope Issuer
+ROUND6 = ["gA", "gEA", "gB", "m7A_pad"]
+
+
+def base_round6(b):
+    g = dict(issuer=GUEST_ID, aid="a-6", rid="r-6", name="admin", mail="admin@example.org", req="req-1")
+    b["gA"] = build_message(6, "A", GUEST_KEY, **g)
+    b["gEA"] = build_message(6, "EA", GUEST_KEY, **g)
+    b["gB"] = build_message(6, "B", GUEST_KEY, **g)
+    b["m7A_pad"] = build_message(7, "A", "idp", issuer="\n    " + world.IDP_ID + "\n  ", r_issuer=world.IDP_ID, req="req-1")
+
+
 _BASE = {}
 
 
@@ -665,6 +694,7 @@ def base():
     b["otherB"] = build_message(1, "B", "other", issuer=world.OTHER_ID, aid="a-7", rid="r-7", name="guest",
                                 mail="guest@other.example.org")
     base_round5(b)
+    base_round6(b)
     return b
 
 
@@ -706,7 +736,7 @@ def _intern_all():
         itree(si)
     for tk in sorted(PLAIN):
         itree(PLAIN[tk])
-    for u in ALG_URIS + [world.IDP_ID, world.OTHER_ID, "admin", "admin@evil.example", "s-evil", "evil-1", "evil-r"]:
+    for u in ALG_URIS + [world.IDP_ID, world.OTHER_ID, "admin", "admin@evil.example", "s-evil", "evil-1", "evil-r", GUEST_ID]:
         istr(u)
     return defs
 
@@ -731,7 +761,7 @@ def tables_coq():
     defs = _intern_all()
     lines = ["(* generated by harness/c02.py: names for the strings / subtrees of the genuinely signed messages and the",
              "   ideal-crypto tables of the genuinely made digests and signatures *)",
-             "From Coq Require Import String List.", "From Verif Require Import Base.Str C02.Model C02.Corr.",
+             "From Coq Require Import String List NArith.", "From Verif Require Import Base.Str C02.Model C02.Corr.",
              "Import ListNotations.", "Open Scope string_scope.", "Open Scope list_scope."]
     lines += defs
     lines += ["Definition world : list (string * list nat) * list (string * string) :=",
@@ -1696,7 +1726,7 @@ def generate(ctx):
     plain_modes = ["m1R", "m1A", "m1B"]
     # 0. the genuine messages under every policy
     for k, d in B.items():
-        if k not in ROUND5:
+        if k not in ROUND5 and k not in ROUND6:
             add("genuine", k, copy.deepcopy(d))
     # 1. XSW catalogue
     for bname in plain_modes:
@@ -1762,7 +1792,7 @@ def generate(ctx):
     n_catalogue = len(cases)
     # 7. seeded random surgery
     n_random = 20000 if ctx.thorough else 1500
-    seeds = [k for k in B if k not in ("evilB_attacker",) and k not in ROUND5]     # round-5 messages: families 9-11
+    seeds = [k for k in B if k not in ("evilB_attacker",) and k not in ROUND5 and k not in ROUND6]     # round-5/6 messages: families 9-13
     catalogue_docs = [c["doc"] for c in cases if c["family"] in ("xsw-a", "xsw-r", "splice")]
     for i in range(n_random):
         r = ctx.rng.random()
@@ -1803,6 +1833,7 @@ def generate(ctx):
             continue
         cases.append({"family": "random-eng", "name": "+".join(desc), "policy": rng2.choice(["R", "A", "A", "B", "E"]), "doc": d})
     round5_families(ctx, cases, add)
+    round6_families(ctx, cases, add)
     if ctx.thorough:
         for c in cases:
             if c["family"] != "random":
@@ -1909,6 +1940,176 @@ def round5_families(ctx, cases, add):
             add("keys", "%s:xsw:%s:%s:%s" % (k, where, idp, sigp), f(B[k], where, idp, sigp), ("R", "A"))
 
 
+# ---------------------------------------------------------------------------- (round 6) whose name the envelope carries
+def issuer_lookalikes(iss):
+    """spellings NEAR an entityID - everything a comparison other than byte-for-byte equality of the stripped texts might
+    let through: proper prefixes / suffixes / inner fragments (down to one character), superstrings (incl. the nested
+    entityID of the guest IdP), letter-case variants, white space around / inside / only, URL-equivalent spellings, and
+    the controls (another federation member, an unknown entity, empty).  [(label, text)], texts distinct and != iss."""
+    parts = iss.split("/")
+    origin = "/".join(parts[:3])                  # https://idp.example.org
+    host = parts[2]
+    path = iss[len(origin):]                      # /idp.xml
+    v = [("prefix:origin", origin), ("prefix:origin/", origin + "/"), ("prefix:-1", iss[:-1]), ("prefix:noext", iss.rsplit(".", 1)[0]),
+         ("prefix:half", iss[:len(iss) // 2]), ("prefix:scheme", "https://"), ("prefix:1", iss[:1]),
+         ("suffix:path", path), ("suffix:file", iss.rsplit("/", 1)[1]), ("suffix:+1", iss[1:]), ("suffix:host+path", host + path),
+         ("suffix:1", iss[-1:]),
+         ("inner:host", host), ("inner:domain", host.split(".", 1)[1]), ("inner:slash", "/"), ("inner:dot", "."), ("inner:mid", iss[3:-3]),
+         ("nested:idp", world.IDP_ID), ("nested:guest", GUEST_ID),
+         ("super:x", iss + "x"), ("super:pre", "x" + iss), ("super:slash", iss + "/"), ("super:twice", iss + iss),
+         ("super:two", iss + " " + iss), ("super:query", iss + "?x=1"), ("super:frag", iss + "#x"), ("super:sub", iss + ".evil.example"),
+         ("case:upper", iss.upper()), ("case:host", origin.replace(host, host.upper()) + path), ("case:scheme", "HTTPS" + iss[5:]),
+         ("case:last", iss[:-1] + iss[-1:].swapcase()), ("case:path", origin + path.upper()),
+         ("pad:space", " " + iss + " "), ("pad:tabnl", "\t" + iss + "\n"), ("pad:inner", origin + " " + path), ("pad:only", "   "),
+         ("pad:nl-only", "\n"),
+         ("url:port", origin + ":443" + path), ("url:dotseg", origin + "/." + path), ("url:pct", iss.replace(".", "%2E", 1)),
+         ("url:http", "http" + iss[5:]), ("url:userinfo", "https://" + host + "@evil.example" + path), ("url:hostdot", "https://" + host + "." + path),
+         ("other", world.OTHER_ID), ("unknown", UNKNOWN_ID), ("empty", "")]
+    out, seen = [], {iss}
+    for lab, t in v:
+        if t not in seen:
+            seen.add(t)
+            out.append((lab, t))
+    return out
+
+
+def random_lookalike(rng, iss):
+    """a random spelling near iss: a slice, one letter's case flipped, one character inserted / deleted / doubled, padding"""
+    r = rng.randrange(7)
+    n = len(iss)
+    if n == 0:
+        return rng.choice(["x", " ", world.IDP_ID])
+    i, j = sorted((rng.randrange(n + 1), rng.randrange(n + 1)))
+    if r == 0:
+        return iss[i:j] if (i, j) != (0, n) else iss[1:]
+    if r == 1:
+        k = rng.randrange(n)
+        return iss[:k] + iss[k].swapcase() + iss[k + 1:]
+    if r == 2:
+        return iss[:i] + rng.choice("x/. -_") + iss[i:]
+    if r == 3:
+        k = rng.randrange(n)
+        return iss[:k] + iss[k + 1:]
+    if r == 4:
+        return iss[:i] + iss[i:j] + iss[i:]
+    if r == 5:
+        return rng.choice([" ", "\n", "\t ", ""]) + iss + rng.choice([" ", "\n  ", ""]) + rng.choice(["", "", "x"])
+    return rng.choice(issuer_lookalikes(iss))[1]
+
+
+ISSUER_MODES = ("replace", "append", "prepend")
+
+
+def envelope_issuer(doc, text, mode="replace"):
+    """the Response envelope names `text`: its Issuer child rewritten / a second Issuer child after (read: last wins) or
+    before the original one; an envelope without Issuer gets one"""
+    d = copy.deepcopy(doc)
+    idx = [i for i, k in enumerate(d[3]) if k[0] == "saml:Issuer"]
+    node = T("saml:Issuer", text=text)
+    if not idx:
+        d[3].insert(0, node)
+    elif mode == "replace":
+        d[3][idx[0]][2] = text
+    elif mode == "append":
+        d[3].insert(idx[-1] + 1, node)
+    else:
+        d[3].insert(idx[0], node)
+    return d
+
+
+def signed_issuer(doc):
+    """the Issuer text of the first assertion of the document (plain, or inside a ciphertext node), unstripped"""
+    for p, n in walk(doc):
+        if n[0] == "saml:Assertion":
+            i = child(n, "saml:Issuer")
+            return i[2] if i is not None else ""
+    return ""
+
+
+def round6_families(ctx, cases, add):
+    """(round 6) the envelope's Issuer - what AuthnResponse.issuer() / session_info()["issuer"] report and the key under
+    which the identity cache files the subject - is outside every signature in assertion-signed traffic; it must be the
+    Issuer of the signature-covered assertion.  Dimension: HOW NEAR the envelope's Issuer is to the signed one (spellings
+    of issuer_lookalikes) x where it stands (rewritten / second Issuer child after / before) x message kind (plain,
+    encrypted, with KeyInfo, Advice, padded signed Issuer, guest IdP whose entityID nests the IdP's, both in the metadata)
+    x policy; and the same on the SIGNED side (the assertion's Issuer rewritten: the signature must then fail)."""
+    B = base()
+    quick = not ctx.thorough
+    # 12. the round-6 messages as they are
+    for k in ROUND6:
+        add("genuine", k, copy.deepcopy(B[k]), (("Ag", "Rg", "A") if k[0] == "g" else ("A", "R")) if quick else
+            ("Rg", "Ag", "Bg", "Eg", "R", "A", "B", "E"))
+    for k in ("m1A", "m1R", "m1B", "otherB"):
+        add("genuine", k, copy.deepcopy(B[k]), ("Ag", "Rg") if quick else ("Rg", "Ag", "Bg", "Eg"))
+    # 13. the catalogue
+    short = ("prefix:origin", "prefix:-1", "suffix:file", "suffix:+1", "inner:host", "nested:idp", "nested:guest", "super:x", "super:pre",
+             "case:host", "pad:tabnl", "pad:only", "url:port", "other")
+    plan = [("m1A", ("A", "E") if quick else ("R", "A", "B", "E", "Ag"), None, ISSUER_MODES[:2]),
+            ("gA", ("Ag", "Eg") if quick else ("Rg", "Ag", "Bg", "Eg", "A"), None, ISSUER_MODES[:1] if quick else ISSUER_MODES[:2]),
+            ("m1EA", ("A",) if quick else ("A", "E", "Ag"), short if quick else None, ISSUER_MODES[:1]),
+            ("gEA", ("Ag",) if quick else ("Ag", "Eg"), short if quick else None, ISSUER_MODES[:1]),
+            ("m7A_pad", ("A",) if quick else ("A", "E"), short if quick else None, ISSUER_MODES[:1]),
+            ("m3A", ("E",) if quick else ("A", "E"), short if quick else None, ISSUER_MODES[:1]),
+            ("m1A_ki", ("Ao",) if quick else ("A", "Ao"), short if quick else None, ISSUER_MODES[:1]),
+            ("m5A", ("Ag",) if quick else ("A", "Ag"), short, ISSUER_MODES[2:]),
+            # controls: the envelope is signed (the rewrite breaks its signature) / nothing is signed where it must be
+            ("m1B", ("A", "R") if quick else ("R", "A", "B", "E"), short[:6], ISSUER_MODES[:1]),
+            ("gB", ("Ag", "Rg") if quick else ("Rg", "Ag", "Bg", "Eg"), short[:6], ISSUER_MODES[:1]),
+            ("m1R", ("R",) if quick else ("R", "E"), short[:6], ISSUER_MODES[:1])]
+    for bname, pols, labels, modes in plan:
+        for lab, text in issuer_lookalikes(signed_issuer(B[bname]).strip()):
+            if labels is not None and lab not in labels:
+                continue
+            for mode in modes:
+                add("issuer", "%s:envelope:%s:%s" % (bname, mode, lab), envelope_issuer(B[bname], text, mode),
+                    pols[:1] if quick and mode != "replace" else pols)
+    # the signed side: the assertion's own Issuer (inside the signed region) rewritten, the envelope's kept / rewritten alike
+    for bname, pols in (("m1A", ("A",)), ("gA", ("Ag",))):
+        for lab, text in issuer_lookalikes(signed_issuer(B[bname])):
+            if lab not in short:
+                continue
+            for both in (False, True):
+                d = copy.deepcopy(B[bname])
+                a = [k for k in d[3] if k[0] == "saml:Assertion"][0]
+                child(a, "saml:Issuer")[2] = text
+                if both:
+                    d = envelope_issuer(d, text)
+                add("issuer", "%s:%s:%s" % (bname, "both" if both else "assertion", lab), d, pols)
+    # the guest IdP's signed assertion under the envelope of a genuine IdP message and the other way round (whole envelopes, not
+    # only their Issuer), and next to an IdP assertion
+    a_of = lambda name: [copy.deepcopy(x) for x in B[name][3] if x[0] in ("saml:Assertion", "saml:EncryptedAssertion")]
+    for env_, inner in (("m1A", "gA"), ("gA", "m1A"), ("m4A", "gA"), ("m1A", "gEA"), ("gA", "m4EA"), ("m1R", "gA"), ("gB", "m1A")):
+        add("issuer", "%s<-assertion(%s)" % (env_, inner), with_children(B[env_], a_of(inner)), ("Ag", "Eg") if quick else ("Rg", "Ag", "Bg", "Eg"))
+    # 14. random: any message with a signed assertion (round-5 multi-assertion shapes included), a random spelling near the
+    #     Issuer of one of its assertions, at the envelope or (sometimes) at any Issuer element, sometimes one careful
+    #     surgery step after it
+    rng6 = __import__("random").Random(ctx.seed * 7919 + 6)
+    pool = multi_pool()
+    srcs = [B[k] for k in ("m1A", "m1A", "gA", "gA", "m1EA", "gEA", "m3A", "m4A", "m5A", "m7A_pad", "m1A_ki", "pairA", "m1B", "otherB")]
+    srcs += [with_children(B["m1A"], [pool[a], pool[b_]]) for a, b_ in (("P1", "Z"), ("P1", "P4"), ("E4", "Z"), ("P4", "E1"))]
+    srcs += [with_children(B["gA"], a_of("m1A")), with_children(B["m1A"], a_of("gA"))]
+    for i in range(2500 if ctx.thorough else 120):
+        d = copy.deepcopy(rng6.choice(srcs))
+        names = [n[2] for p, n in walk(d) if n[0] == "saml:Issuer" and len(p) > 1] or [world.IDP_ID]
+        near = rng6.choice(names).strip()
+        text = random_lookalike(rng6, near)
+        if rng6.random() < 0.75:
+            mode = rng6.choice(ISSUER_MODES + ("replace",))
+            d = envelope_issuer(d, text, mode)
+            desc = "envelope:%s" % mode
+        else:
+            nodes = [n for p, n in walk(d) if n[0] == "saml:Issuer"]
+            rng6.choice(nodes)[2] = text
+            desc = "any-issuer"
+        if rng6.random() < 0.25:
+            d, ds_ = random_surgery(rng6, d, B[rng6.choice(ROUND6 + ["m1A", "m4A"])], 1, True)
+            desc += "+" + ds_
+        if size(d) > 400:
+            continue
+        cases.append({"family": "issuer-random", "name": "%s:%r" % (desc, text), "policy": rng6.choice(["Ag", "Ag", "Eg", "A", "E", "Bg"]),
+                      "doc": normalise_enc(d)})
+
+
 # ---------------------------------------------------------------------------- observation
 def new_nodes(d):
     """xenc:EncryptedData[n="$new"] nodes of d, innermost first, with the per-document token they get"""
@@ -1996,7 +2197,7 @@ def oracle_sp():
 
 
 _FP = {}
-_FP_KEYS = {"idp": 1, "idp2": 2, "idpenc": 3, "other": 4, "sp": 5, "attacker": 6}
+_FP_KEYS = dict(KEYS)
 
 
 def _fingerprints():
@@ -2266,6 +2467,8 @@ def coq_case(case, obs):
     pol = POLICIES[case["policy"]]
     # the "m" policies: an SP without metadata
     world_term = "(@nil (string * list nat), snd C02Base.world)" if case["policy"].endswith("m") else "C02Base.world"
+    if case["policy"].endswith("g"):      # (round 6) the metadata also knows the guest IdP
+        world_term = "((%s, [%d%%nat]) :: fst C02Base.world, snd C02Base.world)" % (cq_s(GUEST_ID), KEYS[GUEST_KEY])
     members = []
     for run in obs["runs"]:
         digs = "[%s]" % "; ".join("(%s, %s, %s, %d%%nat)" % (cq(bool(w)), cq_path(t), cq_path(s), k) for w, t, s, k in run["digs"])
